@@ -3,6 +3,8 @@ package sched
 import (
 	"fmt"
 	"io"
+	"strconv"
+	"strings"
 	"time"
 
 	"nhooyr.io/websocket"
@@ -54,12 +56,24 @@ func c09Setup(prm c09Params) func(c *fw.Ctx, name string) explore.Setup {
 			if prm.State == "writer" || prm.State == "writer-big" {
 				st.p.Window = 64
 			}
+			if prm.Adv == "neverReads" || prm.Adv == "slowThenData" {
+				st.p.Window = 1 // the peer's receive window is closed
+			}
 			w.GoHarness("main", true, func() {
 				conn := mkConn(st.p, k)
 				bg := vctx.Background()
 				data100 := peerData(k, frame.OpBinary, true, fill(0xD0, 100))
 				hdrLen := len(data100) - 100
 				// pre-state
+				if strings.HasPrefix(prm.State, "abandoned-writer-") {
+					// a streamed message is started, one chunk written (it stays in the write
+					// buffer, which it fills up to AdvK bytes short of / exactly to its end), and
+					// the writer is abandoned
+					n, _ := strconv.Atoi(strings.TrimPrefix(prm.State, "abandoned-writer-"))
+					if wr, err := conn.Writer(bg, websocket.MessageBinary); err == nil {
+						wr.Write(fill(0xAB, n))
+					}
+				}
 				switch prm.State {
 				case "halfread":
 					// a complete first fragment (fin=0) is available and one byte of it is consumed
@@ -139,6 +153,13 @@ func c09Setup(prm c09Params) func(c *fw.Ctx, name string) explore.Setup {
 						st.p.Send(f[:len(f)-10])
 					case "dataThenSilent":
 						st.p.Send(data100)
+					case "neverReads":
+					case "slowThenData":
+						// reads nothing for 4 s, sends one complete message at 8 s, then silence
+						vtime.Sleep(4 * time.Second)
+						st.p.SetWindow(0)
+						vtime.Sleep(4 * time.Second)
+						st.p.Send(data100)
 					case "flood":
 						for i := 0; i < 40; i++ {
 							st.p.Send(peerData(k, frame.OpBinary, true, fill(0xF0, 10)))
@@ -186,6 +207,8 @@ func c09Setup(prm c09Params) func(c *fw.Ctx, name string) explore.Setup {
 							}
 						}
 					})
+				case "reader-once":
+					blocked("reader", func() { conn.Read(bg) })
 				case "writer":
 					blocked("writer", func() { conn.Write(bg, websocket.MessageBinary, fill(0xA7, 200)) })
 				case "writer-big":
@@ -291,6 +314,28 @@ func c09Scenarios(tier string) []scenario {
 		advs = append(advs, adv{"stallHeader", 2}, adv{"stallHeader", 3}, adv{"stallHeader", 5}, adv{"stallPayload", 1}, adv{"stallPayload", 50}, adv{"stallPayload", 99})
 	}
 	states := []string{"idle", "reader", "halfread", "halfread-reread", "closeread", "closeread-data", "closeread-twice", "peerclosed-closeread", "ctxclosed-closeread", "writer", "writer-big", "readlimit-failed", "ping", "netconn-deadline-moved"}
+	// a peer that never reads (or reads late) against states that leave bytes in the write buffer
+	for _, k := range []connCfg{{Client: false}, {Client: true}} {
+		sizes := []int{4089, 4090, 4091, 4092}
+		if k.Client {
+			sizes = []int{4082, 4083, 4085, 4087, 4088}
+		}
+		var sts []string
+		for _, n := range sizes {
+			sts = append(sts, fmt.Sprintf("abandoned-writer-%d", n))
+		}
+		sts = append(sts, "idle", "reader", "abandoned-writer-10")
+		for _, s := range sts {
+			for _, act := range []string{"Close", "CloseNow"} {
+				prm := c09Params{K: k, Adv: "neverReads", State: s, Action: act}
+				scs = append(scs, scenario{Name: prm.name(), Cfg: cfg, Setup: c09Setup(prm)})
+			}
+		}
+		for _, s := range []string{"idle", "reader", "reader-once", "closeread"} {
+			prm := c09Params{K: k, Adv: "slowThenData", State: s, Action: "Close"}
+			scs = append(scs, scenario{Name: prm.name(), Cfg: cfg, Setup: c09Setup(prm)})
+		}
+	}
 	for _, k := range []connCfg{{Client: false}, {Client: true}} {
 		for _, a := range advs {
 			for _, s := range states {
